@@ -12,12 +12,12 @@ verus! {
 //@ltype Self => LOpaque
 //@lstruct feos-core/src/state/mod.rs StateHD fields=temperature,volume,moles,partial_density
 //@lextern ln_lambda3(LOpaque, real) -> RArr
-//@lift feos-core/src/equation_of_state/ideal_gas.rs trait:IdealGas::ideal_gas_helmholtz_energy named_sums
+//@lift feos-core/src/equation_of_state/ideal_gas.rs trait:IdealGas::ideal_gas_helmholtz_energy
 //@end
 
 /// the term of component i
 pub open spec fn term(m: LOpaque, st: L_StateHD) -> spec_fn(int) -> real {
-    |i: int| (st.moles.at)(i) * ((ln_lambda3(m, st.temperature).at)(i) + (if (st.partial_density.at)(i) == 0real { 0real } else { rln((st.partial_density.at)(i)) - 1real }))
+    |i: int| ((ln_lambda3(m, st.temperature).at)(i) + (if (st.partial_density.at)(i) == 0real { 0real } else { rln((st.partial_density.at)(i)) - 1real })) * (st.moles.at)(i)
 }
 pub proof fn contract_c10_5_ideal_gas_energy_is_componentwise_sum(m: LOpaque, st: L_StateHD)
     requires
@@ -25,19 +25,20 @@ pub proof fn contract_c10_5_ideal_gas_energy_is_componentwise_sum(m: LOpaque, st
     ensures
         ideal_gas_helmholtz_energy(m, st) == rsum(st.moles.len, term(m, st)),
 {
-    let f = ideal_gas_helmholtz_energy__sumterm0(ln_lambda3(m, st.temperature), st);
-    let g = term(m, st);
-    assert forall|i: int| 0 <= i < st.moles.len implies #[trigger] f(i) == g(i) by {
-        let w = (ln_lambda3(m, st.temperature).at)(i) + (if (st.partial_density.at)(i) == 0real { 0real } else { rln((st.partial_density.at)(i)) - 1real });
-        lemma_mul_comm(w, (st.moles.at)(i));
-    }
-    lemma_rsum_ext(st.moles.len, f, g);
+    // name-free: whatever the lifted summand is called or however it is split into locals, it is point-wise the term
+    lemma_rsum_ext_all();
 }
-proof fn lemma_mul_comm(a: real, b: real) by(nonlinear_arith) ensures a * b == b * a {}
 proof fn lemma_rsum_ext(n: int, f: spec_fn(int) -> real, g: spec_fn(int) -> real)
     requires forall|i: int| 0 <= i < n ==> #[trigger] f(i) == g(i)
     ensures rsum(n, f) == rsum(n, g)
     decreases n
 { if n > 0 { lemma_rsum_ext(n - 1, f, g); } }
+proof fn lemma_rsum_ext_all()
+    ensures forall|n: int, f: spec_fn(int) -> real, g: spec_fn(int) -> real| #![trigger rsum(n, f), rsum(n, g)]
+        (forall|i: int| 0 <= i < n ==> #[trigger] f(i) == g(i)) ==> rsum(n, f) == rsum(n, g)
+{
+    assert forall|n: int, f: spec_fn(int) -> real, g: spec_fn(int) -> real| #![trigger rsum(n, f), rsum(n, g)]
+        (forall|i: int| 0 <= i < n ==> #[trigger] f(i) == g(i)) implies rsum(n, f) == rsum(n, g) by { lemma_rsum_ext(n, f, g); }
+}
 } // verus!
 fn main() {}
